@@ -345,6 +345,8 @@ func premClass(c string, amount uint64, limit int64) int64 {
 		return -int64(amount)
 	case "negover":
 		return -int64(amount) - 1
+	case "huge":
+		return 9223372036854775807
 	case "small":
 		return 100
 	}
@@ -562,7 +564,7 @@ func (c *SwapCtx) csv() uint32 {
 func (p *PeerSim) craftOpening(c *SwapCtx, m *MsgSpec) (*swap.OpeningTxBroadcastedMessage, error) {
 	chain := c.Chain
 	if chain == "" {
-		chain = "btc"
+		chain = p.w.Cfg.Chain
 	}
 	// the same announcement (same swap, sender and variant) names the same transaction and invoice:
 	// re-delivery re-announces the transaction that may meanwhile have been confirmed
